@@ -385,11 +385,23 @@ class Interp:
         self.module_cache[key] = v
         return v
 
+    def _stub_key(self, qual):
+        """the key under which a rule stubbed this function: its own address, or the public address it is re-exported at"""
+        if qual in self.stubs:
+            return qual
+        for k in self.stubs:
+            if k.rsplit(".", 1)[-1] != qual.rsplit(".", 1)[-1]:
+                continue
+            try:
+                if self.src.func(k).qual == qual:
+                    return k
+            except AnalysisError:
+                continue
+        return None
+
     def bound(self, qual, args, kwargs):
         """{parameter name: value} for a call of the package function *qual* (however the caller spelled the arguments)"""
-        f = self.src.funcs.get(qual)
-        if f is None:
-            raise AnalysisError(f"function {qual} not found")
+        f = self.src.func(qual)
         names = [p.arg for p in f.node.args.posonlyargs + f.node.args.args]
         out = dict(zip(names, args))
         out.update(kwargs)
@@ -409,8 +421,10 @@ class Interp:
         if isinstance(fn, ClassVal):
             return self.instantiate(fn, args, kwargs)
         if isinstance(fn, Closure):
-            if fn.qual in self.stubs:
-                return self.stubs[fn.qual](self, args, kwargs)
+            if self.stubs:
+                k = self._stub_key(fn.qual)
+                if k is not None:
+                    return self.stubs[k](self, args, kwargs)
             return self.call_closure(fn, args, kwargs)
         if isinstance(fn, Phi):
             return merge(fn.cond, self.call(fn.a, args, kwargs), self.call(fn.b, args, kwargs))
